@@ -295,4 +295,49 @@ theorem psi_step {c c' : Cfg} {tid : Tid} {alt : Bool} {lbl : String} {t : PThre
     show Phi { sh := c.sh, ths := (qcfg c).ths.set tid t.q } + _ < _
     omega
 
+/-! ### executions -/
+
+/-- `n` consecutive steps -/
+inductive StepsN (F : Nat → Option (List Nat)) : Cfg → Nat → Cfg → Prop where
+  | zero {c : Cfg} : StepsN F c 0 c
+  | succ {c c1 c2 : Cfg} {n : Nat} {tid : Tid} {alt : Bool} {lbl : String} :
+      step F c tid alt = some (lbl, c1) → StepsN F c1 n c2 → StepsN F c (n + 1) c2
+
+theorem reachable_stepsN {c0 c c' : Cfg} {n : Nat} (h : Reachable F c0 c) (hn : StepsN F c n c') :
+    Reachable F c0 c' := by
+  induction hn with
+  | zero => exact h
+  | succ hs _ ih => exact ih (.step h hs)
+
+theorem vi_reachable {c0 c : Cfg} (hb0 : Base c0) (hq0 : QL c0) (hc0 : Ctl c0) (h0 : VI c0)
+    (h : Reachable F c0 c) : VI c := by
+  induction h with
+  | init => exact h0
+  | step hr hs ih =>
+    obtain ⟨t, ht, hk⟩ := step_inv hs
+    exact vi_step (base_reachable hb0 hr) (ql_reachable hb0 hq0 hr) (ctl_reachable hb0 hc0 hr) ih ht hk
+
+/-- the measure decreases along every step from a configuration reachable from `init` -/
+theorem psi_step_init {cap bm mw : Nat} {ns : Option Nat} {soe : Bool} {inputs : List (List Item)}
+    {prods : List ProdSpec} {c c' : Cfg} {tid : Tid} {alt : Bool} {lbl : String} (hbm : 0 < bm)
+    (h : Reachable F (init cap bm mw ns soe inputs prods) c) (hs : step F c tid alt = some (lbl, c')) :
+    Psi F c' < Psi F c := by
+  obtain ⟨hb, hq, hc, -⟩ := invs_reachable h
+  have hv := vi_reachable (base_init cap bm mw ns soe inputs prods) (ql_init cap bm mw ns soe inputs prods)
+    (ctl_init cap bm mw ns soe inputs prods) (vi_init cap bm mw ns soe inputs prods hbm) h
+  obtain ⟨t, ht, hk⟩ := step_inv hs
+  exact psi_step hb hq hc hv ht hk
+
+/-- an execution of `n` steps uses up at least `n` units of the measure -/
+theorem stepsN_bound {cap bm mw : Nat} {ns : Option Nat} {soe : Bool} {inputs : List (List Item)}
+    {prods : List ProdSpec} {c c' : Cfg} {n : Nat} (hbm : 0 < bm)
+    (h : Reachable F (init cap bm mw ns soe inputs prods) c) (hn : StepsN F c n c') :
+    n + Psi F c' ≤ Psi F c := by
+  induction hn with
+  | zero => omega
+  | succ hs _ ih =>
+    have h1 := psi_step_init hbm h hs
+    have h2 := ih (.step h hs)
+    omega
+
 end MlModel.Piter
